@@ -175,3 +175,11 @@ def run(rep: Report, prog: Program, tier: str) -> None:
     strategy_call_provenance(rep, "R20.5", prog)
     check_sanitised(rep, "R20.5", prog)
     rep.floor("R20.5", 20)
+
+    rep.rule("R20.6", "non-negative also for NaN: in every max(0.0, x) clamp of the Retry-After chain and of retry_after_or the constant is the first argument, so float('nan') from an SDK-supplied retry_after or a 'nan' header becomes 0.0 instead of a NaN hint (CPython's max returns its first argument when comparisons with NaN are false)")
+    from .floats import nan_safe_clamps
+
+    n_cl = nan_safe_clamps(rep, "R20.6", prog, {**{q: paths_of[q] for q in (f"{H}:_parse_retry_after", f"{H}:_coerce_retry_after")}, "redress.strategies:retry_after_or.<locals>.f": E.paths(prog.func("redress.strategies:retry_after_or.<locals>.f"))})
+    if n_cl < 3:
+        raise AnalysisError(f"R20.6: only {n_cl} clamps found")
+    rep.floor("R20.6", 3)
